@@ -13,7 +13,7 @@ import random
 
 import numpy as np
 
-from .. import tlc, trace
+from .. import tlc, trace, realdata
 from ..common import Evidence, Reporter, import_mir_eval, Machinery
 
 PROP = "C10"
@@ -171,6 +171,10 @@ def run(tier, seed):
         if rng.random() < 0.3:
             strings.append(mutate(rng, m))
     strings += ["".join(rng.choice(ALPH) for _ in range(rng.randint(1, 7))) for _ in range(3000 if thorough else 600)]
+    # the real chord vocabulary of the repository's annotation fixtures (tests/data/chord): every distinct label
+    real_labels = sorted({lab for _, (ri, rl, ei, el) in realdata.pairs(me, "chord") for lab in list(rl) + list(el)})
+    strings += real_labels
+    ev.cov["labels_from_repository_fixtures"] = len(real_labels)
     strings = list(dict.fromkeys(strings))
     events = []
     for k, s in enumerate(strings):
